@@ -395,9 +395,12 @@ def run(ctx):
     if ctx.replay:
         rc = json.load(open(ctx.replay))["case"]
         if "case" in rc:
-            replay_cases(ctx, h, TEST, [rc["case"]], expected, "replay", describe=describe)
+            replay_cases(ctx, h, TEST, [rc["case"]], expected, "replay", describe=describe,
+                         kf=lambda c, exp, r1: kf_of(deviation_of(c, r1.get("got"))))
         elif "record" in rc:
             judge_records(ctx, h, [{"lines": rc["record"]["lines"]}], "replay", st)
+        elif "line" in rc:
+            end_to_end(ctx, [{"lines": [rc["line"]], "exp": [{"text": rc["expected_text"]}], "alts": []}], st, [], "replay-binary")
         return "model_checking"
 
     # ---------------------------------------------------------------- (2) E: all short lines
